@@ -132,7 +132,6 @@ func checkThenInsert(c *Ctx, le *LockEngine, rule string, fns []*ssa.Function, T
 	}
 	n := 0
 	for _, f := range fns {
-		facts := (*Facts)(nil)
 		eachInstr(f, func(b *ssa.BasicBlock, i int, in ssa.Instruction) {
 			mu, ok := in.(*ssa.MapUpdate)
 			if !ok {
@@ -148,49 +147,50 @@ func checkThenInsert(c *Ctx, le *LockEngine, rule string, fns []*ssa.Function, T
 				return
 			}
 			n++
-			if facts == nil {
-				facts = ComputeFacts(f)
-			}
-			la := le.Analyze(f)
 			key := fmt.Sprintf("%s.&f%d", keyP(base), gi)
-			found := false
-			why := "no comma-ok lookup of the same key on the same map dominates the insert"
-			eachInstr(f, func(b2 *ssa.BasicBlock, j int, in2 ssa.Instruction) {
-				lk, ok := in2.(*ssa.Lookup)
-				if !ok || !lk.CommaOk || found {
-					return
-				}
-				b2base, ok := loadOfField(lk.X, st, fi)
-				if !ok || keyP(b2base) != keyP(base) || !sameValue(lk.Index, mu.Key) {
-					return
-				}
-				if !dominates(lk, mu) {
-					return
-				}
-				miss := false
-				for _, ex := range resultN(lk, 1) {
-					if facts.KnownBool(mu.Block(), ex, false) {
-						miss = true
+			found, why := missEvidence(le, f, st, fi, key, keyP(base), mu.Key, mu)
+			if !found {
+				// the insert may sit in a private helper whose callers hold the lock and made the test
+				if kp, isParam := mu.Key.(*ssa.Parameter); isParam && f.Object() != nil && !f.Object().Exported() {
+					if le.sites == nil {
+						le.buildCallIndex()
+					}
+					sites := le.sites[f]
+					all := len(sites) > 0 && !le.escapes[f]
+					lwhy := ""
+					for _, sct := range sites {
+						if sct.ci.Kind != "call" {
+							all = false
+							continue
+						}
+						var keyArg, baseArg ssa.Value
+						for pi, p := range f.Params {
+							if pi < len(sct.ci.Common.Args) {
+								if p == kp {
+									keyArg = sct.ci.Common.Args[pi]
+								}
+								if keyP(base) == "param:"+p.Name() {
+									baseArg = sct.ci.Common.Args[pi]
+								}
+							}
+						}
+						if keyArg == nil || baseArg == nil {
+							all = false
+							continue
+						}
+						ckey := fmt.Sprintf("%s.&f%d", keyP(baseArg), gi)
+						okSite, w := missEvidence(le, sct.caller, st, fi, ckey, keyP(baseArg), keyArg, sct.ci.Instr)
+						if !okSite {
+							all, lwhy = false, w+" (at the call in "+fname(sct.caller)+")"
+						}
+					}
+					if all {
+						found = true
+					} else if lwhy != "" {
+						why = lwhy
 					}
 				}
-				if !miss {
-					why = "the insert is not confined to the miss edge of the lookup"
-					return
-				}
-				if m, ok := la.HeldBefore(lk)[key]; !ok || m != 'W' {
-					why = "the lookup is not made under the write lock " + key
-					return
-				}
-				if m, ok := la.HeldBefore(mu)[key]; !ok || m != 'W' {
-					why = "the insert is not made under the write lock " + key
-					return
-				}
-				if la.releasedBetween(key, lk, mu) {
-					why = "the lock is released between the lookup and the insert"
-					return
-				}
-				found = true
-			})
+			}
 			c.Check(found, rule, con, mu.Pos(),
 				"miss of the same key observed under the same hold of "+key+" dominates the insert",
 				why+" — two concurrent creators can both insert (duplicate or lost node)")
@@ -212,43 +212,64 @@ func rulesC09(c *Ctx) {
 	c.Stats["functions_analysed"] = len(fns)
 
 	// ---- L2 typestate of the stream handle --------------------------------
-	_, dataMU := fieldIndex(file, "dataMU")
-	_, hfile := fieldIndex(handler, "file")
-	nfh := c.P.Func(memfsPkg, "", "NewFileHandler")
+	// roles are discovered: the constructor is the function that allocates a
+	// FileHandler; the handle's file field is its *File field; the data lock is
+	// the File mutex the constructor still holds when it returns.
+	hfile := -1
+	if hst, ok := handler.Underlying().(*types.Struct); ok {
+		for i := 0; i < hst.NumFields(); i++ {
+			if isPtrTo(hst.Field(i).Type(), file) {
+				hfile = i
+			}
+		}
+	}
+	var nfh *ssa.Function
+	built := 0
+	var builders []*ssa.Function
+	for _, f := range c.P.AllModuleFuncs() {
+		eachInstr(f, func(b *ssa.BasicBlock, i int, in ssa.Instruction) {
+			if a, ok := in.(*ssa.Alloc); ok {
+				if pt, ok := a.Type().(*types.Pointer); ok && types.Identical(pt.Elem(), handler) {
+					built++
+					builders = append(builders, f)
+				}
+			}
+		})
+	}
+	if len(builders) > 0 {
+		nfh = builders[0]
+	}
+	dataMU := -1
 	l2ok := true
-	if nfh == nil || dataMU < 0 || hfile < 0 {
-		c.Bad("L2", "NewFileHandler", 0, "anchor not found")
+	if nfh == nil || hfile < 0 {
+		c.Bad("L2", "stream handle constructor", 0, "no function constructs a memfs.FileHandler (or the handle has no *File field); cannot certify")
 		l2ok = false
 	} else {
 		sum := le.summary(nfh, 0)
-		held := false
+		fst := file.Underlying().(*types.Struct)
 		for k, m := range sum.HeldAtExit {
-			if strings.HasSuffix(k, fmt.Sprintf(".&f%d", dataMU)) && strings.HasPrefix(k, "param:") && m == 'W' {
-				held = true
+			if !strings.HasPrefix(k, "param:") || m != 'W' {
+				continue
+			}
+			for i := 0; i < fst.NumFields(); i++ {
+				ts := fst.Field(i).Type().String()
+				if (ts == "sync.Mutex" || ts == "sync.RWMutex") && strings.HasSuffix(k, fmt.Sprintf(".&f%d", i)) {
+					dataMU = i
+				}
 			}
 		}
-		l2ok = c.Check(held, "L2", "NewFileHandler returns holding File.dataMU", nfh.Pos(),
-			"every return is reached with the file's data lock held in W mode", "some return of NewFileHandler does not hold the file's data write lock: the handle's unlocked accesses race") && l2ok
-		// the only place a FileHandler is built
-		built := 0
-		for _, f := range c.P.AllModuleFuncs() {
-			eachInstr(f, func(b *ssa.BasicBlock, i int, in ssa.Instruction) {
-				if a, ok := in.(*ssa.Alloc); ok {
-					if pt, ok := a.Type().(*types.Pointer); ok && types.Identical(pt.Elem(), handler) {
-						built++
-						l2ok = c.Check(f == nfh, "L2", "FileHandler constructed in "+fname(f), a.Pos(),
-							"constructed by the lock-taking constructor", "a FileHandler is built outside NewFileHandler: it would touch File.data without owning the lock") && l2ok
-					}
-				}
-			})
+		l2ok = c.Check(dataMU >= 0, "L2", "the handle constructor returns holding the file's data lock", nfh.Pos(),
+			"every return is reached with a mutex of the file held in W mode", "some return of the stream-handle constructor does not hold a write lock of the file: the handle's unlocked accesses race") && l2ok
+		for _, f := range builders {
+			l2ok = c.Check(f == nfh, "L2", "FileHandler constructed in "+fname(f), f.Pos(),
+				"constructed by the lock-taking constructor", "a FileHandler is built in a second place: it would touch File.data without owning the lock") && l2ok
 		}
 		c.Floor("L2", built, 1)
 		closeFn := c.P.Func(memfsPkg, "FileHandler", "Close")
-		if closeFn == nil {
+		if closeFn == nil || dataMU < 0 {
 			c.Bad("L2", "FileHandler.Close", 0, "anchor not found")
 			l2ok = false
 		} else {
-			// every return of Close passed an Unlock of h.file.dataMU
 			want := fmt.Sprintf("*param:%s.&f%d.&f%d", closeFn.Params[0].Name(), hfile, dataMU)
 			la := le.Analyze(closeFn)
 			bad := MustPass(closeFn, nil, func(x ssa.Instruction) bool {
@@ -261,7 +282,7 @@ func rulesC09(c *Ctx) {
 				}
 				return false
 			})
-			l2ok = c.Check(len(bad) == 0, "L2", "FileHandler.Close releases File.dataMU", closeFn.Pos(),
+			l2ok = c.Check(len(bad) == 0, "L2", "FileHandler.Close releases the file's data lock", closeFn.Pos(),
 				"every return passes Unlock of the handle's file data lock", "a return of Close is reachable without unlocking: the file stays locked forever") && l2ok
 		}
 	}
@@ -290,7 +311,7 @@ func rulesC09(c *Ctx) {
 	// ---- L4 check-then-create -------------------------------------------------
 	k := checkThenInsert(c, le, "L4", fns, dir, "index", "mu")
 	k += ruleOuterLockAroundLeaf(c, le, "L4")
-	c.Floor("L4", k, 4)
+	c.Floor("L4", k, 3)
 
 	// ---- L5 no lock leak -------------------------------------------------------
 	acq := 0
@@ -447,7 +468,7 @@ func rulesListIndexInStep(c *Ctx, le *LockEngine, rule string) {
 		}
 		c.Check(ok, rule, con, f.Pos(), "list store and index update are paired under one hold of "+key, why+" — a node becomes listed-but-not-found (or found-but-not-listed)")
 	}
-	c.Floor(rule, n, 4)
+	c.Floor(rule, n, 2)
 }
 
 // ruleOuterLockAroundLeaf (C01.R7): in WriteFile and Writer the leaf lookup
@@ -538,4 +559,51 @@ func reachableSamePkg(f *ssa.Function, depth int) []*ssa.Function {
 	}
 	rec(f, 0)
 	return out
+}
+
+// missEvidence: in function g, a comma-ok lookup of keyVal in field fi of the
+// object keyed baseKey dominates `point`, `point` is confined to its miss
+// edge, and the guard lockKey is held in W mode from the lookup to `point`.
+func missEvidence(le *LockEngine, g *ssa.Function, st *types.Struct, fi int, lockKey, baseKey string, keyVal ssa.Value, point ssa.Instruction) (bool, string) {
+	facts := factsFor(g)
+	la := le.Analyze(g)
+	found := false
+	why := "no comma-ok lookup of the same key on the same map dominates the insert"
+	eachInstr(g, func(b2 *ssa.BasicBlock, j int, in2 ssa.Instruction) {
+		lk, ok := in2.(*ssa.Lookup)
+		if !ok || !lk.CommaOk || found {
+			return
+		}
+		b2base, ok := loadOfField(lk.X, st, fi)
+		if !ok || keyP(b2base) != baseKey || !sameValue(lk.Index, keyVal) {
+			return
+		}
+		if !dominates(lk, point) {
+			return
+		}
+		miss := false
+		for _, ex := range resultN(lk, 1) {
+			if facts.KnownBool(point.Block(), ex, false) {
+				miss = true
+			}
+		}
+		if !miss {
+			why = "the insert is not confined to the miss edge of the lookup"
+			return
+		}
+		if m, ok := la.HeldBefore(lk)[lockKey]; !ok || m != 'W' {
+			why = "the lookup is not made under the write lock " + lockKey
+			return
+		}
+		if m, ok := la.HeldBefore(point)[lockKey]; !ok || m != 'W' {
+			why = "the insert is not made under the write lock " + lockKey
+			return
+		}
+		if la.releasedBetween(lockKey, lk, point) {
+			why = "the lock is released between the lookup and the insert"
+			return
+		}
+		found = true
+	})
+	return found, why
 }
